@@ -112,6 +112,7 @@ type FnCtx struct {
 	atoms        map[string]string
 	strSrc       map[string][3]string // string made from bytes: row, offset, length
 	litText      map[string]string    // string literal constant -> its text
+	canaryNext   bool
 	bounded      int // > 0: bounded stand-in run, loops explored up to this many iterations
 }
 
@@ -226,6 +227,7 @@ func (c *FnCtx) srcLine(p token.Pos) string {
 // satisfied by that condition instead.
 func (c *FnCtx) oblige(st *State, kind, desc, cond string, pos token.Pos, clause string) *Obligation {
 	if cond == "true" {
+		c.canaryNext = false
 		return nil
 	}
 	goalCond := cond
@@ -251,7 +253,13 @@ func (c *FnCtx) oblige(st *State, kind, desc, cond string, pos token.Pos, clause
 	key := fmt.Sprintf("%s#%d", base, c.occ[base])
 	o := &Obligation{Key: key, Kind: kind, Func: fname, Desc: desc, Pos: c.posString(pos), Prefix: len(c.script), Goal: implies(st.guard, goalCond), Clause: clause, ctx: c}
 	c.obls = append(c.obls, o)
-	c.assume(st, cond)
+	if c.canaryNext {
+		// a canary is a deliberately false clause: never assume it
+		o.Canary = true
+		c.canaryNext = false
+	} else {
+		c.assume(st, cond)
+	}
 	return o
 }
 
@@ -1030,6 +1038,7 @@ func (c *FnCtx) checkAsserts(fr *frame, b *ssa.BasicBlock, st *State, in ssa.Ins
 			return base(n)
 		}
 		t := ec.boolOf(a.Expr)
+		c.canaryNext = a.Canary
 		o := c.oblige(st, "assert", "assertion before the line containing "+a.Name, t, p, "assert_at "+a.Name+": "+a.Text)
 		if o != nil && a.Canary {
 			o.Canary = true
